@@ -713,6 +713,17 @@ func (g *pgen) retFile() string {
 // genProgram builds a template set + inputs for one evaluator case.
 func genProgram(r *h.Rand, flavor string) *prog {
 	p := newProg(r)
+	// names of built-ins shadowed by a variable of the execution or by a Set global: identifier lookup
+	// (scopes, then globals, then defaults) decides what a call means wherever the call is written
+	if r.Chance(25) {
+		p.vars.Add(bind(r.Pick([]string{"upper", "lower", "trimSpace"}), vFunc("shout")))
+		p.tags["shadowed-builtin"] = true
+	}
+	if r.Chance(15) {
+		p.globals.Add(bind(r.Pick([]string{"upper", "lower", "html"}), vFunc("shout")))
+		p.tags["shadowed-builtin"] = true
+	}
+
 	g := &pgen{r: r, p: p, flavor: flavor}
 	if flavor == "errors" {
 		g.errPct = 12
